@@ -144,6 +144,14 @@
 #define CNL_BUILTIN_OVERFLOW_ENABLED
 #endif
 
+#if defined(JOHNMCFARLANE_CNL_VERIF) && defined(CNL_VERIF_OVERFLOW_PATH)
+// verification hook: force the overflow-detection path (1: intrinsics, 2: portable)
+#undef CNL_BUILTIN_OVERFLOW_ENABLED
+#if CNL_VERIF_OVERFLOW_PATH == 1
+#define CNL_BUILTIN_OVERFLOW_ENABLED
+#endif
+#endif
+
 ////////////////////////////////////////////////////////////////////////////////
 // int-to-string macro
 
